@@ -2,6 +2,7 @@ package sched
 
 import (
 	"bytes"
+	"compress/flate"
 	"fmt"
 	"io"
 	"strings"
@@ -93,6 +94,21 @@ func c07Open(st *c07State, k connCfg, tag byte, nmsgs int) *c07Conn {
 	return x
 }
 
+var c07Probe []byte
+
+// c07ProbePayload: 300 x 'Q' compressed against a preset dictionary of 600 x 'Q',
+// i.e. a deflate stream made of references into history the receiver cannot have.
+func c07ProbePayload() []byte {
+	if c07Probe == nil {
+		var b bytes.Buffer
+		w, _ := flate.NewWriterDict(&b, flate.BestCompression, bytes.Repeat([]byte{'Q'}, 600))
+		w.Write(bytes.Repeat([]byte{'Q'}, 300))
+		w.Flush()
+		c07Probe = bytes.TrimSuffix(b.Bytes(), []byte{0, 0, 0xff, 0xff})
+	}
+	return c07Probe
+}
+
 func c07Do(st *c07State, k connCfg, op string) {
 	tag := op[0]
 	act := op[2:]
@@ -101,6 +117,35 @@ func c07Do(st *c07State, k connCfg, op string) {
 	if act == "open" {
 		if x == nil {
 			c07Open(st, k, tag, 3)
+		}
+		return
+	}
+	if act == "openProbe" {
+		// a fresh connection whose peer's first compressed message refers back
+		// beyond the start of its own stream: a correct receiver has no history and
+		// must fail; whatever it returns must not be another connection's data
+		if x != nil || !k.Flate {
+			return
+		}
+		x = &c07Conn{tag: tag, p: vpipe.New(), msgLen: c07MsgLen}
+		x.p.In = peerFrame(k, frame.Frame{Fin: true, Rsv1: true, Opcode: frame.OpText, Payload: c07ProbePayload()})
+		x.c = mkConn(x.p, k)
+		st.conns[tag] = x
+		_, r, err := x.c.Reader(vctx.Background())
+		if err == nil {
+			buf := make([]byte, 64)
+			for {
+				m, err := r.Read(buf)
+				for _, v := range buf[:m] {
+					if v != 'Q' {
+						st.leaks = append(st.leaks, fmt.Sprintf("%c.openProbe: a fresh connection inflated a back-reference beyond its own stream into byte %q (data of an earlier connection kept in a pooled sliding window)", tag, v))
+						return
+					}
+				}
+				if err != nil {
+					break
+				}
+			}
 		}
 		return
 	}
@@ -286,6 +331,7 @@ func c07ConcSetup(prm c07ConcParams) func(c *fw.Ctx, name string) explore.Setup 
 			k := prm.K
 			w.GoHarness("main", true, func() {
 				a := c07Open(st, k, 'A', 1)
+				a.p.SplitRead = true
 				bg := vctx.Background()
 				ctx, cancel := vctx.WithCancel(bg)
 				w.GoHarness("readerA", true, func() {
@@ -365,6 +411,7 @@ func c07Scenarios(tier string) []scenario {
 		if len(opened) < 3 {
 			next := "ABC"[len(opened)]
 			gen(append(cur, string(next)+".open"), opened+string(next))
+			gen(append(cur, string(next)+".openProbe"), opened+string(next))
 		}
 		for _, t := range opened {
 			for _, a := range acts {
@@ -379,9 +426,6 @@ func c07Scenarios(tier string) []scenario {
 			// keep programs that touch at least two connections or read again / close
 			prm := c07Params{K: k, Prog: pr}
 			scs = append(scs, scenario{Name: prm.name(), Cfg: explore.Config{P: 0, Horizon: 60e9}, Setup: c07Setup(prm), Group: fmt.Sprintf("prog/%s/%d", k.String(), i%4)})
-		}
-		if !k.Flate {
-			continue
 		}
 		for _, cl := range []string{"CloseNow", "peerClose", "ctx"} {
 			prm := c07ConcParams{K: k, Closer: cl}
